@@ -62,7 +62,8 @@ Fixpoint get_ancestor_loop (t : tree) (fuel : nat) (walk : nat) (height_walk hei
       | Some nd =>
         let height_skip := get_skip_height height_walk in
         let height_skip_prev := get_skip_height (height_walk - 1) in
-        let follow_prev :=
+        (* a thunk, so that the extracted (strict) code evaluates only the branch taken *)
+        let follow_prev := fun (_ : unit) =>
           match nd_parent nd with
           | Some p => get_ancestor_loop t f p (height_walk - 1) height
           | None => PBug
@@ -73,8 +74,8 @@ Fixpoint get_ancestor_loop (t : tree) (fuel : nat) (walk : nat) (height_walk hei
              || ((height_skip >? height)
                  && negb ((height_skip_prev <? height_skip - 2) && (height_skip_prev >=? height)))
           then get_ancestor_loop t f sk height_skip height
-          else follow_prev
-        | None => follow_prev
+          else follow_prev tt
+        | None => follow_prev tt
         end
       end
     else PBlock walk
